@@ -1,12 +1,13 @@
 CHECK = {
     "level": "fault_enumeration",
     "assumptions": ["single failure per request (a second fault during the rollback is outside the statement)",
-                    "faults are injected into the storage operations of the request goroutine only; background workers run undisturbed"],
+                    "faults and latency spikes are injected into the storage operations of the request: those that start inside the request's time window on the request goroutine or on a goroutine it started (directly or transitively); long-lived background workers (expiration, rollback manager) run undisturbed",
+                    "a storage write that is delayed by a latency spike has been accepted by the store: it completes even if the request context is cancelled meanwhile (as with a remote store); all writes of one goroutine stay in program order"],
     "units": [
-        unit("leasefaults", "vault", ["vault/c06_test.go", "vault/c04_test.go"], "^TestVerif_C06_LeaseFaults$",
+        unit("leasefaults", "vault", ["vault/c06_test.go", "vault/c06x_test.go", "vault/c04_test.go"], "^TestVerif_C06_LeaseFaults$",
              quick={"checks": 3, "shards": 1, "cap": 900},
              thorough={"checks": 2, "shards": 16, "cap": 3000}),
-        unit("schedules", "vault", ["vault/c06_test.go", "vault/c06sched_test.go", "vault/c04_test.go"], "^TestVerif_C06_Schedules$",
+        unit("schedules", "vault", ["vault/c06_test.go", "vault/c06x_test.go", "vault/c06sched_test.go", "vault/c04_test.go"], "^TestVerif_C06_Schedules$",
              quick={"checks": 150, "shards": 1, "cap": 900},
              thorough={"checks": 1000, "shards": 16, "cap": 3000},
              flaky_is_violation=True),
